@@ -70,6 +70,10 @@ CLAIMS["C06"] = ("other", "constant-table check of the label rows over the typed
   "Decides that every label row is well formed, that the rotation constant puts bb first, who may write labels, that labels reach the hand engine, that the next-BB list is a bb+1…bb+N scan of occupied seats with chips computed at settlement from the seat manager's BB seat, and that published seats are not cross-wired. Label order for dead-button / dead-small-blind / sitting-out layouts is numeric over seat states and is not decided.",
   "DESIGN.md §4 C06", TRUST)
 
+CLAIMS["C08"] = ("other", "path enumeration of the continue handler with outcome classification; truth tables of the pause / auto-open / alive predicates by path enumeration; must-return-through of the delay helper; drop analysis of the open-game callback with participants provenance",
+  "Decides the decision structure that runs after every hand (pause iff pause predicate, else set up the next hand, no silent path), the definitions of the predicates, that the handler is always scheduled and run, and that the open-game callback does not silently drop except under a count guard whose participants provenance is checked. One genuine wedge (set-up participants are not the alive set the guard counted) is recorded in known_findings.json. Liveness itself is not decided.",
+  "DESIGN.md §4 C08, §5 F11", TRUST)
+
 REASONS = {}
 
 checks = []
